@@ -1,11 +1,12 @@
 import BiotiteModel.Model.C20
+import BiotiteModel.Model.C20Web
 /-! Line-protocol driver for C20: one output line per input line (`<result> | <observation>`). -/
 namespace BiotiteModel.Driver.C20
 open BiotiteModel BiotiteModel.C20 BiotiteModel.Proto
 
 def wrapperOf : String → Option Wrapper
   | "base" => some .base | "local" => some .localapp | "clustalo" => some .clustalo
-  | "muscle3" => some .muscle3 | "muscle5" => some .muscle5 | "mafft" => some .mafft | _ => none
+  | "muscle3" => some .muscle3 | "muscle5" => some .muscle5 | "mafft" => some .mafft | "tantan" => some .tantan | _ => none
 
 def toolOf : String → Option Tool
   | "ok" => some .ok | "reorder" => some .reorder | "garbage_empty" => some .garbageEmpty
@@ -42,29 +43,64 @@ def callOf : List String → Option Call
   | ["call", m] => some (.method m)
   | _ => none
 
-/-- Driver state: `none` before `new`, `some none` when construction failed, `some (some s)` otherwise. -/
-def step (st : Option (Option St)) (line : String) : Option (Option St) × String :=
+/-- Driver state. -/
+inductive DSt where
+  | fresh                  -- before `new`
+  | failed                 -- construction failed
+  | app (s : St)           -- a process-backed wrapper (or the Application stub)
+  | web (w : Web.Web)      -- BlastWebApp with scripted clock and server
+
+def showWeb (w : Web.Web) : String :=
+  s!"st={w.state.name} now={w.now} lc={w.lastContact} lr={w.lastRequest} k={w.k} sent={w.sent} cl={w.cleanups}"
+
+def webCallOf : List String → Option Web.Call
+  | ["start"] => some .start
+  | ["state"] => some .getState
+  | ["cancel"] => some .cancel
+  | ["join", "-"] => some (.join none)
+  | ["join", n] => n.toNat?.map fun t => .join (some (t : Int))
+  | ["clock", n] => n.toNat?.map .clock
+  | ["contact"] => some .contact
+  | ["request"] => some .request
+  | ["violate"] => some .violate
+  | ["call", m] => some (.method m)
+  | _ => none
+
+def step (st : DSt) (line : String) : DSt × String :=
   match words line with
   | ["new", w, t, n, k] =>
     match wrapperOf w, toolOf t, n.toNat?, seqtypeOf k with
     | some w, some t, some n, some k =>
       -- MuscleApp / Muscle5App call get_version(bin_path) before anything else: a missing binary fails construction
-      if (w = .muscle3 ∨ w = .muscle5) ∧ launchFails t then (some none, "ERR:" ++ (errLaunch t).toString ++ " | " ++ noObs)
+      if (w = .muscle3 ∨ w = .muscle5) ∧ launchFails t then (.failed, "ERR:" ++ (errLaunch t).toString ++ " | " ++ noObs)
       else
         let s := init w t n k
-        (some (some s), "ok | " ++ showObs s)
+        (.app s, "ok | " ++ showObs s)
     | _, _, _, _ => (st, "bad-op")
+  | ["newweb", obey, k, put] =>
+    match (if obey = "obey" then some true else if obey = "free" then some false else none), k.toNat?,
+          (if put = "ok" then some false else if put = "toolarge" then some true else none) with
+    | some obey, some k, some tl =>
+      let w : Web.Web := { obey := obey, k := k, tooLarge := tl }
+      (.web w, "ok | " ++ showWeb w)
+    | _, _, _ => (st, "bad-op")
   | ws =>
     match st with
-    | some (some s) =>
+    | .app s =>
       match callOf ws with
       | some c =>
         let (s', r) := BiotiteModel.C20.step s c
-        (some (some s'), showRes r ++ " | " ++ showObs s')
+        (.app s', showRes r ++ " | " ++ showObs s')
       | none => (st, "bad-op")
-    | some none => (st, "no-app")
-    | none => (st, "bad-op")
+    | .web w =>
+      match webCallOf ws with
+      | some c =>
+        let (w', r) := Web.step w c
+        (.web w', showRes r ++ " | " ++ showWeb w')
+      | none => (st, "bad-op")
+    | .failed => (st, "no-app")
+    | .fresh => (st, "bad-op")
 
-def main : IO Unit := loop none step
+def main : IO Unit := loop DSt.fresh step
 
 end BiotiteModel.Driver.C20
